@@ -36,7 +36,7 @@ pub fn check(deep: bool, pairs: &mut usize, skipped: &mut usize, fails: &mut Vec
     let dom = Domain::new(-3, 4, &["a", "b"]);
     let uni = universe();
     let n_interp = if deep { 24 } else { 8 };
-    let work: Vec<(usize, usize, usize)> = { let mut w = Vec::new(); for fi in 0..formulas.len() { for vi in 0..vars.len() { for ti in 0..vars[vi].1.len() { if deep || (fi + vi * 3 + ti) % 5 == 0 || fi + 12 >= formulas.len() { w.push((fi, vi, ti)); } } } } w };
+    let work: Vec<(usize, usize, usize)> = { let mut w = Vec::new(); for fi in 0..formulas.len() { for vi in 0..vars.len() { for ti in 0..vars[vi].1.len() { if (deep && (fi + vi + ti) % 3 == 0) || (fi + vi * 3 + ti) % 5 == 0 || fi + 12 >= formulas.len() { w.push((fi, vi, ti)); } } } } w };
     let results: Vec<Option<Failure>> = crate::par_map(&work, |(fi, vi, ti)| {
         let (src, f) = &formulas[*fi];
         let (var, terms) = &vars[*vi];
